@@ -89,7 +89,7 @@ def orthogonal(rng, m, mix_col=None):
 
 def carry(case):
     """the transformed instance is called the same way (same optional keywords, same argument types); its object history is its own"""
-    return {k: v for k, v in case.meta.items() if k in ("omit_all_sensors", "np_ints", "dtype")}
+    return {k: v for k, v in case.meta.items() if k in ("omit_all_sensors", "np_ints", "dtype") and not (k == "dtype" and str(v).startswith("int"))}
 
 
 def transform_case(rng, case, tkind):
@@ -161,6 +161,11 @@ def run(ctx: C.Ctx):
             # matrix must not be silently brought to other units before `norm − cost` is formed
             case.meta["dtype"] = "float32"
             ctx.count("basis_dtype:float32")
+        elif case.kind == "ccqr" and tkind in ("orth", "scale") and rng.random() < 0.35 and np.array_equal(np.round(B), B):
+            # integer-valued geometry stored as integers, prices with fractions: the transformed instance (B·Q, or B scaled by a power
+            # of two below 1) is a float matrix – the ranking must not depend on the storage type of the same numbers
+            case.meta["dtype"] = "int64"
+            ctx.count("basis_dtype:int64")
         ctx.evaluations += 1
         label = case.kind + (":" + case.gqr.get("constraint_option", "") if case.kind == "gqr" else "")
         ctx.count(f"{label}/{tkind}")
